@@ -36,10 +36,16 @@ def audit(prop, ops_used, tie_theorems, tie_modules):
     # Qv.TieAudit and the driver modules were built by common.lean_audit of this run (one lake call)
     tmp = os.path.join(common.LEAN, ".lake", "tie_audit_%s_%d.lean" % (prop, os.getpid()))
     open(tmp, "w").write(text)
+    lock = common._lake_lock()        # another check may be rebuilding a tie module from a redirected source tree
     try:
         r = subprocess.run(["lake", "env", "lean", tmp], cwd=common.LEAN, capture_output=True, text=True)
+        if r.returncode != 0 and tie_modules:
+            # a tie module is stale (e.g. rebuilt against a redirected tree by a concurrent run): rebuild, retry once
+            subprocess.run(["lake", "build"] + sorted(set(tie_modules)), cwd=common.LEAN, capture_output=True, text=True)
+            r = subprocess.run(["lake", "env", "lean", tmp], cwd=common.LEAN, capture_output=True, text=True)
     finally:
         os.unlink(tmp)
+        lock.close()
     handlers, T, G, missing = {}, None, set(), []
     for line in r.stdout.splitlines():
         try:
